@@ -17,7 +17,7 @@ for pid in ids:
         "thorough_cmd": "./check %s thorough" % pid,
         "evidence_file": "/verif/evidence/%s.json" % pid,
         "replay_cmd_template": "./check --replay {path}",
-        "engine": "mbv-" + c["bin"],
+        "engine": "mbv-" + (c["bin"] or "multi"),
         "level_claimed": {
             "category": "model_checking",
             "text": "Bounded-exhaustive exploration of the real crates: every input / call history of the stated finite space is enumerated (no sampling) and each library call is compared with a slice-based reference model or monitored (guard pages, two fill patterns, extent containment, panic/crash classification). The verdict is 'no violation in the stated bounds', in the build configurations listed in the evidence. " + c.get("level_text", ""),
